@@ -44,3 +44,46 @@ Theorem C05_values_exact : forall c r maxp x,
   o_rest_blank (observe (find (reset c r maxp) (Some x))) = true.
 Proof. exact values_exact. Qed.
 Print Assumptions C05_values_exact.
+
+From Coq Require Import String ZArith.
+From Echo Require Import Base.GoLite Gen.Src_context Gen.Src_response Http.ContextSrc.
+Open Scope Z_scope.
+
+(* ---- the tie to the source by proof: context.Reset and Response.reset, translated statement by statement from
+   context.go / response.go on every run (Gen/Src_context.v, Gen/Src_response.v; language Base/GoLite.v).  Whatever
+   the recycled context held (q0 .. q11 are arbitrary), afterwards the request is the new one, the query cache,
+   handler, store, path, parameter names and logger have their fresh values, the response has been reset and the
+   value array has been blanked - every cell that the model's [reset] resets *)
+Theorem C05_source_reset_forgets : forall (sym : string -> Z) q0 q1 q2 q3 q4 q5 q6 q7 q8 q9 q10 q11 r w,
+  let '(st', _) := GoLite.run sym src_context_reset_results src_context_reset (recycled [q0; q1; q2; q3; q4; q5; q6; q7; q8; q9; q10; q11] r w) in
+  GoLite.get (fields st') "c.request" = r /\
+  GoLite.get (fields st') "c.query" = sym "nil" /\
+  GoLite.get (fields st') "c.handler" = sym "NotFoundHandler" /\
+  GoLite.get (fields st') "c.store" = sym "nil" /\
+  GoLite.get (fields st') "c.path" = sym """""" /\
+  GoLite.get (fields st') "c.pnames" = sym "nil" /\
+  GoLite.get (fields st') "c.logger" = sym "nil" /\
+  events st' = [("c.response.reset", [w]); ("blank c.pvalues", [])].
+Proof. exact src_context_reset_forgets. Qed.
+Print Assumptions C05_source_reset_forgets.
+
+(* the value array is re-made with maxParam entries exactly when it was shorter (routes added since the context was created) *)
+Theorem C05_source_reset_grows : forall (sym : string -> Z) q0 q1 q2 q3 q4 q5 q6 q7 q8 q9 q10 q11 r w,
+  sym "nil" = 0 -> q8 <> 0 -> q9 <> 0 ->
+  let '(st', _) := GoLite.run sym src_context_reset_results src_context_reset (recycled [q0; q1; q2; q3; q4; q5; q6; q7; q8; q9; q10; q11] r w) in
+  GoLite.get (fields st') "c.pvalues" = if q10 <? q11 then sym "make([]string,*c.echo.maxParam)" else q7.
+Proof. exact src_context_reset_grows. Qed.
+Print Assumptions C05_source_reset_grows.
+
+(* Response.reset: hooks, size, status and the committed flag of the previous request are gone *)
+Theorem C05_source_response_reset : forall (sym : string -> Z) b a wr sz stt cm w,
+  let st := {| locals := [("w", w)];
+               fields := [("r.beforeFuncs", b); ("r.afterFuncs", a); ("r.Writer", wr); ("r.Size", sz); ("r.Status", stt); ("r.Committed", cm)];
+               events := []; inputs := [] |} in
+  let '(st', _) := GoLite.run sym src_response_reset_results src_response_reset st in
+  GoLite.get (fields st') "r.beforeFuncs" = sym "nil" /\ GoLite.get (fields st') "r.afterFuncs" = sym "nil" /\
+  GoLite.get (fields st') "r.Writer" = w /\ GoLite.get (fields st') "r.Size" = 0 /\
+  GoLite.get (fields st') "r.Status" = sym "http.StatusOK" /\ GoLite.get (fields st') "r.Committed" = 0.
+Proof. exact src_response_reset_forgets. Qed.
+Print Assumptions C05_source_response_reset.
+
